@@ -471,3 +471,57 @@ theorem runBig_account (body : Body) (hm : MapPreserving body) (s c : Nat) (hs0 
     · exact account_snoc_ok armed0 tr _ _ _ htr (stepBig_account body hm s c hs0 t ev h hact)
 
 end YashModel.Trap
+
+namespace YashModel.Trap
+
+/-! ### an interruptible built-in interrupted by SIGINT -/
+
+/-- the signals the system reported up to and including the first batch that contains SIGINT -/
+def deliveredBatches : List (List Nat) → List Nat
+  | [] => []
+  | b :: rest => if b.contains SIGINT then b else b ++ deliveredBatches rest
+
+theorem sigintLoop_spec (batches : List (List Nat)) (caught : List Nat) :
+    (sigintLoop batches caught).1 = caught ++ deliveredBatches batches
+    ∧ (sigintLoop batches caught).2 = batches.any (·.contains SIGINT) := by
+  induction batches generalizing caught with
+  | nil => simp [sigintLoop, deliveredBatches]
+  | cons b rest ih =>
+    simp only [sigintLoop, deliveredBatches, List.any_cons, List.contains_iff_mem]
+    by_cases hb : SIGINT ∈ b
+    · simp [hb]
+    · have := ih (caught ++ b)
+      have hc : b.contains SIGINT = false := by simpa using hb
+      simp only [hb, if_false, hc, Bool.false_or]
+      exact ⟨by rw [this.1, List.append_assoc], this.2⟩
+
+theorem isSome_catchSignal (t : TrapMap) (k x : Nat) :
+    (get (catchSignal t k) x).isSome = (get t x).isSome :=
+  isSome_of_core (catchSignal_core t k x)
+
+theorem pendingAt_foldl_catch (l : List Nat) (t : TrapMap) (x : Nat) :
+    pendingAt (l.foldl catchSignal t) x = ((l.contains x && (get t x).isSome) || pendingAt t x) := by
+  induction l generalizing t with
+  | nil => simp
+  | cons k l ih =>
+    simp only [List.foldl_cons]
+    rw [ih, isSome_catchSignal, pendingAt_catchSignal]
+    by_cases hx : x = k
+    · subst hx
+      cases hg : (get t x).isSome <;> cases hp : pendingAt t x <;> simp
+    · have hne : ¬ k = x := fun h => hx h.symm
+      by_cases hl : x ∈ l <;> cases hg : (get t x).isSome <;> cases hp : pendingAt t x <;>
+        simp [hx, hl]
+
+theorem core_foldl_catch (l : List Nat) (t : TrapMap) (x : Nat) :
+    (get (l.foldl catchSignal t) x).map core = (get t x).map core := by
+  induction l generalizing t with
+  | nil => rfl
+  | cons k l ih => simp only [List.foldl_cons]; rw [ih, catchSignal_core]
+
+theorem sorted_foldl_catch (l : List Nat) (t : TrapMap) (h : Sorted t) : Sorted (l.foldl catchSignal t) := by
+  induction l generalizing t with
+  | nil => exact h
+  | cons k l ih => exact ih _ (sorted_catchSignal _ _ h)
+
+end YashModel.Trap
